@@ -1,6 +1,7 @@
 import DaskModel.DriverLib
 import DaskModel.Model.Sched
 import DaskModel.Model.Callbacks
+import DaskModel.Model.Diagnostics
 open Dask
 open Dask.Sched
 
@@ -228,11 +229,65 @@ def hCbExec : Handler := handler fun args =>
     | .error _ => pure (.list [.sym "raised"])
   | _ => none
 
+/-! ### diagnostics (C52) -/
+def decEv (e : SExp) : Option Ev :=
+  match e with
+  | .list [.sym "start"] => some .start
+  | .list [.sym "start_state"] => some .startState
+  | .list [.sym "pretask", k] => do pure (.pretask (← k.toNat?))
+  | .list [.sym "posttask", k] => do pure (.posttask (← k.toNat?))
+  | .list [.sym "finish", b] => do pure (.finish (← b.toBool?))
+  | _ => none
+
+/-- `(prof ((ev time)…))` ↦ `(ok ((key start end)…))` sorted | `(raised)`; several scheduler calls may follow each other -/
+def hProf : Handler := handler fun args =>
+  match args with
+  | [evs] => do
+    let items ← evs.toList?
+    let pairs ← items.mapM (fun it => match it with
+      | .list [e, t] => do pure ((← decEv e), (← t.toNat?))
+      | _ => none)
+    let times := pairs.map (·.2)
+    let log : List (Ev × State Int) := pairs.map (fun p => (p.1, {}))
+    match Dask.Diag.profRun (fun i => times.getD i 0) 0 {} log with
+    | .ok p =>
+      let rs := p.results.mergeSort (fun a b => a.1 < b.1 || (a.1 == b.1 && a.2.1 ≤ b.2.1))
+      pure (.list [.sym "ok", .list (rs.map (fun r => SExp.ofNats [r.1, r.2.1, r.2.2])),
+                   SExp.ofNats (sortNat (p.pend.map (·.1)))])
+    | .error _ => pure (.list [.sym "raised"])
+  | _ => none
+
+/-- `(cache_run nodes results prio nw cs choices store)`: the run the scheduler makes after `Cache._start` patched the
+graph with `store`; ↦ `(outcome result store')` where `store'` is what `Cache._posttask` leaves (no eviction) -/
+def hCacheRun : Handler := handler fun args =>
+  match args with
+  | [nodes, results, prio, nw, cs, choices, store] => do
+    let gi ← decNodes nodes
+    let results ← results.toNats?
+    let prio ← decPrio prio
+    let nw ← nw.toInt?
+    let cs ← cs.toInt?
+    let choices ← choices.toNats?
+    let store ← decIntMap store
+    let cfg : Cfg := { g := Dask.Diag.patchGraph gi.g store, results := results, prio := prio, nw := nw, cs := cs }
+    let P := Dask.Diag.patchParams (mkParams gi []) store
+    let r := getAsync cfg P choices
+    let res : SExp := match r.outcome with
+      | .ok .done => .list (results.map (fun k => match r.final.cache.get? k with
+          | some v => .int v
+          | none => .sym "KeyError"))
+      | _ => .list []
+    let store' := Dask.Diag.storeAfter store r.log
+    pure (.list [encOutcome r.outcome, res,
+                 .list ((sortMap store').map (fun p => .list [SExp.ofNat p.1, .int p.2])),
+                 SExp.ofNats (r.log.filterMap (fun p => match p.1 with | .pretask k => some k | _ => none))])
+  | _ => none
+
 end SchedDrv
 
 def table : List (String × Handler) :=
   [("run", SchedDrv.hRun), ("start_state", SchedDrv.hStart), ("finish_task", SchedDrv.hFinish),
    ("release_data", SchedDrv.hRelease), ("denote", SchedDrv.hDenote),
-   ("cbrun", SchedDrv.hCbRun), ("cbexec", SchedDrv.hCbExec)]
+   ("cbrun", SchedDrv.hCbRun), ("cbexec", SchedDrv.hCbExec), ("prof", SchedDrv.hProf), ("cache_run", SchedDrv.hCacheRun)]
 
 def main : IO Unit := runDriver table
